@@ -8,6 +8,7 @@ import (
 	"golang.org/x/tools/go/ssa"
 
 	"verif/internal/cexpr"
+	"verif/internal/contract"
 	"verif/internal/smt"
 )
 
@@ -20,6 +21,22 @@ func (e *Engine) atLoopHeader(st *State, li *loopInfo) (bool, []*State) {
 	lc := li.lc
 	if !top {
 		lc = nil
+	}
+	if lc == nil && top && e.cur.fc != nil && e.cur.fc.Opts["sweep"] != "" {
+		lc = &contract.Loop{Ordinal: li.ordinal}
+		// the sweep template's requires is the object invariant: it holds at every loop head
+		for _, r := range e.cur.fc.Requires {
+			c := r
+			c.Props = propsOr(c.Props, "SAFETY")
+			lc.Invariants = append(lc.Invariants, c)
+		}
+		li.lc = lc
+	}
+	if lc != nil && li.header.Comment == "rangeindex.loop" && !lc.AutoDone {
+		// implicit bounds of the hidden range index
+		lc.AutoDone = true
+		n, _ := cexpr.Parse("-1 <= $k && $k <= $n - 1")
+		lc.Invariants = append([]contract.Clause{{Expr: n, Src: "range index bounds", Label: "range-bounds", Props: []string{"SAFETY"}}}, lc.Invariants...)
 	}
 	if act, ok := fr.active[li.header]; ok {
 		// back edge: invariant preservation and variant decrease
@@ -506,6 +523,11 @@ func (e *Engine) havocTargetIn(st *State, env *Env, m *cexpr.Node) {
 	if m.Kind == "call" && m.Args[0].Kind == "ident" && m.Args[0].Name == "heap" {
 		isHeap = true
 		m = m.Args[1]
+	}
+	if m.Kind == "ident" && m.Name == "everything" {
+		st.havocAll()
+		st.globals = map[*ssa.Global]Value{}
+		return
 	}
 	if m.Kind == "ident" && !isHeap {
 		// local variable (loop havoc) — find the cell
